@@ -74,10 +74,12 @@ class ReactorDouble(object):
   def running(self, v):
     self._running = v
 
-  def callInThread(self, *a, **k):
-    raise core.HarnessError('reactor double: callInThread not expected')
+  def callInThread(self, f, *a, **k):
+    # the harness runs writeForever() in its own controlled thread; the request is only recorded
+    self.in_thread = getattr(self, 'in_thread', []) + [getattr(f, '__name__', repr(f))]
 
-  def addSystemEventTrigger(self, *a, **k):
+  def addSystemEventTrigger(self, phase, event, f, *a, **k):
+    self.triggers = getattr(self, 'triggers', []) + [(phase, event, f, a, k)]
     return None
 
 
@@ -164,6 +166,20 @@ class WriterHarness(thrx.Harness):
       instrumentation.stats_lock = thrx.SchedLock(s)
     self.reactor = ReactorDouble(p.get('passes'))
     carbon.writer.reactor = self.reactor
+    self.service = None
+    if p.get('service_stop'):
+      # the daemon's own service object: what it registers at start-up is what the orderly stop will run
+      from twisted.internet.task import Clock
+      self.service = carbon.writer.WriterService()
+      for task in (self.service.storage_reload_task, self.service.aggregation_reload_task):
+        task.clock = Clock()
+      self.service.startService()
+      if 'writeForever' not in getattr(self.reactor, 'in_thread', []):
+        raise core.HarnessError('WriterService.startService() did not start the writer thread')
+      if p.get('reload_task_dead'):
+        # a reload tick has failed for good earlier (e.g. SystemExit out of loadStorageSchemas on an invalid edit):
+        # twisted stops a LoopingCall whose function raised
+        self.service.storage_reload_task.stop()
     self.writer = carbon.writer
     self.sched = s
     budget = {'n': 0}
@@ -272,7 +288,19 @@ class WriterHarness(thrx.Harness):
         s.point(('op', 'stop-initiated'))
         self.stop_initiated = True
         self.elog.append(('stop-initiated',))
-        self.writer.shutdownModifyUpdateSpeed()
+        if self.service is not None:
+          # twisted's orderly stop: the 'before shutdown' triggers in registration order - those the service registered
+          # when it started, then the application's stopService (registered by twistd after start-up); a trigger that
+          # raises is logged and the others still run
+          from twisted.python import log as tlog
+          trigs = [(f, a, k) for ph, ev, f, a, k in getattr(self.reactor, 'triggers', []) if (ph, ev) == ('before', 'shutdown')]
+          for f, a, k in trigs + [(self.service.stopService, (), {})]:
+            try:
+              f(*a, **k)
+            except Exception:   # noqa
+              self.elog.append(('trigger-raised', getattr(f, '__name__', repr(f))))
+        else:
+          self.writer.shutdownModifyUpdateSpeed()
         s.point(('op', 'crash'))
         self.reactor.running = False
         s.join(self.tw)
